@@ -10,31 +10,42 @@ Open Scope N_scope.
 Section History.
 Context {T : Type}.
 
-(* `part.map_mut(|_| v)` / part.set(i, j, v) for every (i, j) of the part, in row-major order:
-   each write goes through MatrixPart::try_get_reference_mut *)
-Definition fill_part (data : list T) (p : part) (v : T) : list T :=
-  fold_left (fun d rc => fst (write d (VPart p) (fst rc) (snd rc) v)) (grid (p_rows p) (p_cols p)) data.
+(* writing g(i, j) to every cell (i, j) of a part, in row-major order of the PART's own indexes:
+   `part.map_mut_with_index(|_, i, j| g(i, j))` / part.set(i, j, g(i, j)) /
+   `*part.get_reference_mut(i, j) = g(i, j)` / the part's row_major_reference_mut_iter().with_index();
+   each write goes through MatrixPart's mutable getters (MatrixPart::try_get_reference_mut) *)
+Definition write_part (data : list T) (p : part) (g : N -> N -> T) : list T :=
+  fold_left (fun d rc => fst (write d (VPart p) (fst rc) (snd rc) (g (fst rc) (snd rc))))
+            (grid (p_rows p) (p_cols p)) data.
 
-(* { let mut parts = m.partition(&rp, &cp); if let Some(p) = parts.get_mut(k) { fill p with v } }
+(* `part.map_mut(|_| v)`: the same value everywhere *)
+Definition fill_part (data : list T) (p : part) (v : T) : list T := write_part data p (fun _ _ => v).
+
+(* { let mut parts = m.partition(&rp, &cp); if let Some(p) = parts.get_mut(k) { write g to p } }
    false = partition panicked (nothing was borrowed, nothing written) *)
-Definition partition_fill (m : matrix T) (rp cp : list N) (k : nat) (v : T) : matrix T * bool :=
+Definition partition_write (m : matrix T) (rp cp : list N) (k : nat) (g : N -> N -> T) : matrix T * bool :=
   match partition (m_rows m) (m_cols m) rp cp with
   | Ok parts =>
       match nth_error parts k with
-      | Some p => (mkM (fill_part (m_data m) p v) (m_rows m) (m_cols m), true)
+      | Some p => (mkM (write_part (m_data m) p g) (m_rows m) (m_cols m), true)
       | None => (m, true)
       end
   | _ => (m, false)
   end.
 
+Definition partition_fill (m : matrix T) (rp cp : list N) (k : nat) (v : T) : matrix T * bool :=
+  partition_write m rp cp k (fun _ _ => v).
+
 Inductive xop : Type :=
 | XOp (o : op T)
-| XPartitionFill (rp cp : list N) (k : nat) (v : T).
+| XPartitionFill (rp cp : list N) (k : nat) (v : T)
+| XPartitionWrite (rp cp : list N) (k : nat) (g : N -> N -> T).
 
 Definition xstep (m : matrix T) (o : xop) : matrix T * bool :=
   match o with
   | XOp o => impl_step m o
   | XPartitionFill rp cp k v => partition_fill m rp cp k v
+  | XPartitionWrite rp cp k g => partition_write m rp cp k g
   end.
 
 Fixpoint xtrace (m : matrix T) (ops : list xop) : list (matrix T * bool) :=
